@@ -148,8 +148,18 @@ package keeper
 //@ ensures [frame] forall key bytes :: key != types.ConsumerIdToPhaseKey(consumerId) && key != types.ConsumerIdToRemovalTimeKey(consumerId) && key != types.RemovalTimeToConsumerIdsKey(t) ==> S[key] == old(S[key])
 //@ ensures [no-deps] E == old(E) && X == old(X)
 
-//@ func Keeper.GetAllActiveConsumerIds pure
+//@ func Keeper.GetAllConsumerIds pure
 //@ ensures [frame] S == old(S) && E == old(E) && X == old(X)
+
+//@ func Keeper.GetAllActiveConsumerIds pure
+//@ let all := old(k.GetAllConsumerIds(ctx))
+//@ loop 1 invariant [idx] 0 <= _i && _i <= len(all)
+//@ loop 1 invariant [pure] S == old(S) && E == old(E) && X == old(X)
+//@ loop 1 invariant [sound] forall j int :: 0 <= j && j < len(consumerIds) ==> k.IsConsumerActive(ctx, consumerIds[j])
+//@ loop 1 invariant [complete] forall i int :: 0 <= i && i < _i && k.IsConsumerActive(ctx, all[i]) ==> (exists j int :: 0 <= j && j < len(consumerIds) && consumerIds[j] == all[i])
+//@ ensures [frame] S == old(S) && E == old(E) && X == old(X)
+//@ ensures [only-active] forall j int :: 0 <= j && j < len(result) ==> k.IsConsumerActive(ctx, result[j])
+//@ ensures [all-active] forall i int :: 0 <= i && i < len(all) && k.IsConsumerActive(ctx, all[i]) ==> (exists j int :: 0 <= j && j < len(result) && result[j] == all[i])
 
 //@ func Keeper.ValidatorConsensusKeyInUse
 //@ let ids := old(k.GetAllActiveConsumerIds(ctx))
